@@ -56,6 +56,13 @@ func verifFlagSets() []verifFlags {
 		{[]string{"-f", "merge"}, []Option{MERGE, Precision(0)}, "merge", false},
 		{[]string{"-yaml"}, []Option{Precision(0)}, "jd", true},
 		{[]string{"-color"}, []Option{Precision(0)}, "jd", false},
+		// combinations: each flag alone is covered above
+		{[]string{"-yaml", "-f", "patch"}, []Option{Precision(0)}, "patch", true},
+		{[]string{"-yaml", "-f", "merge"}, []Option{MERGE, Precision(0)}, "merge", true},
+		{[]string{"-mset", "-setkeys", "a"}, []Option{MULTISET, SetKeys("a"), Precision(0)}, "jd", false},
+		{[]string{"-setkeys", "a", "-set"}, []Option{SET, SetKeys("a"), Precision(0)}, "jd", false},
+		{[]string{"-set", "-f", "merge"}, []Option{SET, MERGE, Precision(0)}, "merge", false},
+		{[]string{"-yaml", "-set"}, []Option{SET, Precision(0)}, "jd", true},
 	}
 }
 
@@ -135,7 +142,7 @@ func verifCLICheck(a, b JsonNode, fi int) string {
 		}
 		// -o FILE: same bytes in the file, nothing on stdout, same exit status
 		fo := filepath.Join(dir, "o")
-		os.Remove(fo)
+		os.WriteFile(fo, verifStaleFile(), 0o644) // an older, longer output is already there
 		ro := verifExec(bin, "", append(append([]string{"-o", fo}, fs.args...), fa, fb)...)
 		got, _ := os.ReadFile(fo)
 		if ro.exit != r.exit || ro.stdout != "" || (r.exit != 2 && string(got) != r.stdout) {
@@ -334,7 +341,7 @@ func verifCLITranslate(a, b JsonNode, mode int) string {
 				return fmt.Sprintf("binary %d -t %s from stdin: exit %d stdout %q, library %q", bi, j.kind, rs.exit, rs.stdout, j.want)
 			}
 			fo := filepath.Join(dir, "o")
-			os.Remove(fo)
+			os.WriteFile(fo, verifStaleFile(), 0o644) // an older, longer output is already there
 			ro := verifExec(bin, "", "-o", fo, "-t", j.kind, f)
 			got, _ := os.ReadFile(fo)
 			if ro.exit != 0 || ro.stdout != "" || string(got) != j.want {
@@ -389,4 +396,88 @@ func verifArgSets() [][]string {
 		{"-yaml"}, {"-yaml", "-set"}, {"-color"}, {"-color", "-f", "patch"}, {"-p"}, {"-p", "-f", "patch"}, {"-p", "-f", "merge"}, {"-p", "-set"}, {"-t", "bogus"}, {"-t", "jd2patch"},
 		{"-p", "-t", "jd2patch"}, {"-o"}, {"-bogus"}, {"-set=false"}, {"-mset", "-setkeys", "id"}, {"-set", "-setkeys", "id"}, {"-set", "-setkeys", "id,first name"},
 	}
+}
+
+// verifStaleFile: the previous content of an -o file (longer than any output of these runs).
+func verifStaleFile() []byte {
+	b := make([]byte, 400000)
+	for i := range b {
+		b[i] = "stale output\n"[i%13]
+	}
+	return b
+}
+
+// verifCLIText (C14, C16): verifCLICheck over documents whose text shape (final newline inside the
+// last value, CR, a line over 64 KiB) a careless reader of files or of stdin changes.
+func verifCLIText(a, b JsonNode, fi int) string { return verifCLICheck(a, b, fi) }
+
+// verifCLIPatchSpelling (C14, C12, C10): `jd -p -f merge|patch [-yaml] PATCH DOC` reads PATCH as JSON
+// whatever its spelling - escaped slashes, \u escapes incl. surrogate pairs, exponents, integers
+// beyond int64, insignificant white space - and prints what the library gives for that text; the
+// -yaml flag only selects how DOC is read and how the result is written. i picks the spelling.
+func verifCLIPatchSpelling(i int) string {
+	bins := []string{os.Getenv("VERIF_JD_BIN"), os.Getenv("VERIF_JDTOP_BIN")}
+	if bins[0] == "" || bins[1] == "" {
+		return "binaries not built"
+	}
+	type sp struct{ format, patch, doc string }
+	cases := []sp{
+		{"merge", `{"u":"http:\/\/x\/y"}`, `{"u":"old","k":1}`},
+		{"merge", `{"e":"😀","k":null}`, `{"k":1}`},
+		{"merge", `{"n":1E2,"m":-0.0,"b":18446744073709551615}`, `{"n":1}`},
+		{"merge", "{ \"a\" :\n\t{ \"b\" : [ 1 , 2 ] } }\n", `{"a":{"c":1}}`},
+		{"merge", `{"s":"Aé \u007f"}`, `{"s":""}`},
+		{"merge", `{"a\/b":{"~":"\\"}}`, `{"a/b":{"~":"x"}}`},
+		{"patch", `[{"op":"add","path":"\/u","value":"http:\/\/x"}]`, `{"k":1}`},
+		{"patch", `[{"op":"test","path":"/e","value":"😀"},{"op":"remove","path":"/e","value":"😀"},{"op":"add","path":"/e","value":"é"}]`, `{"e":"😀"}`},
+		{"patch", "[ { \"op\" : \"add\" , \"path\" : \"/n\" , \"value\" : 1E2 } ]\n", `{"k":1}`},
+		{"patch", `[{"op":"add","path":"/b","value":18446744073709551615}]`, `{"k":1}`},
+	}
+	c := cases[i%len(cases)]
+	dir, err := os.MkdirTemp("", "verifcli")
+	if err != nil {
+		return err.Error()
+	}
+	defer os.RemoveAll(dir)
+	fp, fd := filepath.Join(dir, "p"), filepath.Join(dir, "d")
+	os.WriteFile(fp, []byte(c.patch), 0o644)
+	os.WriteFile(fd, []byte(c.doc), 0o644)
+	for _, yaml := range []bool{false, true} {
+		// the library's answer: the patch read as JSON in the given format, the document as JSON or YAML
+		var d Diff
+		var derr error
+		if c.format == "merge" {
+			d, derr = ReadMergeString(c.patch)
+		} else {
+			d, derr = ReadPatchString(c.patch)
+		}
+		var doc JsonNode
+		var nerr error
+		if yaml {
+			doc, nerr = ReadYamlString(c.doc)
+		} else {
+			doc, nerr = ReadJsonString(c.doc)
+		}
+		want, wantExit := "", 0
+		if derr != nil || nerr != nil {
+			wantExit = 2
+		} else if r, err := doc.Patch(d); err != nil {
+			wantExit = 2
+		} else if yaml {
+			want = r.Yaml()
+		} else {
+			want = r.Json()
+		}
+		args := []string{"-p", "-f", c.format}
+		if yaml {
+			args = append(args, "-yaml")
+		}
+		for bi, bin := range bins {
+			r := verifExec(bin, "", append(append([]string{}, args...), fp, fd)...)
+			if r.exit != wantExit || (wantExit == 0 && r.stdout != want) {
+				return fmt.Sprintf("binary %d %v on patch %q: exit %d stdout %q, library: exit %d %q", bi, args, c.patch, r.exit, r.stdout, wantExit, want)
+			}
+		}
+	}
+	return ""
 }
